@@ -130,8 +130,10 @@ def shaped_games():
     return out
 
 
-def gen_games(rng, count, nmax=6, nonabs=False, **kw):
+def gen_games(rng, count, nmax=6, nonabs=False, slow=True, **kw):
     for g in shaped_games():
+        if not slow and any(p == 0.9995 for ts in g['transition_list'] for p, _ in ts):
+            continue
         if nonabs or all(len(g['transition_list'][f]) == 1 and g['transition_list'][f][0][1] == f for f in g['final_states']):
             yield copy.deepcopy(g)
     for i in range(count):
